@@ -349,6 +349,7 @@ fn builder_script(args: &[String]) {
                 "c32" => format!("{}", b.constant_bit32(1, 5)),
                 "pop" => format!("{:?}", b.pop_instruction().map(|i| i.class.opname).map_err(|e| format!("{:?}", e))),
                 "id" => format!("{}", b.id()),
+                "ver" => { b.set_version(1, 3); "()".into() }
                 "sf:none" => format!("{:?}", b.select_function(None).map_err(|e| format!("{:?}", e))),
                 "sb:none" => format!("{:?}", b.select_block(None).map_err(|e| format!("{:?}", e))),
                 o if o.starts_with("sf:") => format!("{:?}", b.select_function(Some(o[3..].parse().unwrap())).map_err(|e| format!("{:?}", e))),
@@ -441,7 +442,10 @@ fn parse_batch() {
                         let split = |ws: &[u32]| -> Vec<Vec<u32>> { let mut out = vec![]; let mut i = 0; while i < ws.len() { let wc = (ws[i] >> 16) as usize; if wc == 0 || i + wc > ws.len() { break; } out.push(ws[i..i + wc].to_vec()); i += wc; } out.sort(); out };
                         let inw: Vec<u32> = bytes[20.min(bytes.len())..].chunks_exact(4).map(|c| u32::from_le_bytes([c[0], c[1], c[2], c[3]])).collect();
                         let same_insts = split(&inw) == split(&a[5.min(a.len())..]);
-                        println!("Ok {} rt={} same={} words={}", m.all_inst_iter().count(), same as u8, same_insts as u8, words.join(","));
+                        // C01: the header carries the input's version word and id bound
+                        let inh: Vec<u32> = bytes[..20.min(bytes.len())].chunks_exact(4).map(|c| u32::from_le_bytes([c[0], c[1], c[2], c[3]])).collect();
+                        let hdr = inh.len() == 5 && a.len() >= 5 && a[0] == inh[0] && a[1] == inh[1] && a[3] == inh[3];
+                        println!("Ok {} rt={} same={} hdr={} words={}", m.all_inst_iter().count(), same as u8, same_insts as u8, hdr as u8, words.join(","));
                     }
                     Err(_) => println!("PANIC assemble/disassemble"),
                 }
@@ -751,6 +755,42 @@ fn dedup_sweep() {
     println!("checked pairs {}", checked);
 }
 
+/// storage-batch: one script per stdin line over a value type whose equality is NOT structural: values are `<key>.<payload>`,
+/// equal iff same key; key N is never equal to anything (like NaN), key W equals every non-W value but not another W.
+/// ops: a:<v> append, f:<v> fetch_or_append. Prints the token of each op and, at the end, the value behind each token.
+fn storage_batch() {
+    use std::io::BufRead;
+    #[derive(Clone, Debug)]
+    struct V { key: String, payload: String }
+    impl PartialEq for V {
+        fn eq(&self, o: &V) -> bool {
+            if self.key == "N" || o.key == "N" { return false; }
+            if self.key == "W" && o.key == "W" { return false; }
+            if self.key == "W" || o.key == "W" { return true; }
+            self.key == o.key
+        }
+    }
+    std::panic::set_hook(Box::new(|_| {}));
+    for line in std::io::stdin().lock().lines() {
+        let line = line.unwrap();
+        let r = std::panic::catch_unwind(|| {
+            let mut st: rspirv::sr::storage::Storage<V> = rspirv::sr::storage::Storage::new();
+            let mut toks = vec![];
+            let mut out = vec![];
+            for op in line.split_whitespace() {
+                let (k, p) = op[2..].split_once('.').unwrap();
+                let v = V { key: k.to_string(), payload: p.to_string() };
+                let t = if op.starts_with("a:") { st.append(v) } else { st.fetch_or_append(v) };
+                out.push(format!("{}", t.index()));
+                toks.push(t);
+            }
+            let vals: Vec<String> = toks.iter().map(|t| format!("{}.{}", st[*t].key, st[*t].payload)).collect();
+            format!("tokens {} lookups {}", out.join(","), vals.join(","))
+        });
+        match r { Ok(s) => println!("{}", s), Err(_) => println!("PANIC") }
+    }
+}
+
 fn main() {
     let args: Vec<String> = env::args().collect();
     match args.get(1).map(|s| s.as_str()) {
@@ -760,6 +800,7 @@ fn main() {
         Some("load-bytes") => load_bytes_cmd(&args[2..]),
         Some("decoder-script") => decoder_script(&args[2..]),
         Some("storage-script") => storage_script(&args[2..]),
+        Some("storage-batch") => storage_batch(),
         Some("table-dump") => table_dump(&args[2]),
         Some("load-batch") => load_batch(),
         Some("builder-script") => builder_script(&args[2..]),
